@@ -220,6 +220,11 @@ pub struct ListenerState {
     pub accepted: u64,
     /// (connection id, sequence number) of every connection handed out by accept()
     pub accepted_conns: Vec<(usize, u64)>,
+    /// fault: the next `fail_next` accept attempts that find a pending connection fail with EMFILE
+    /// (the process is out of file descriptors); the connection stays in the backlog
+    pub fail_next: u32,
+    errs_in_row: u32,
+    pub accept_errors: u64,
 }
 
 pub type SharedListener = Arc<Mutex<ListenerState>>;
@@ -230,7 +235,7 @@ pub struct SimListenerImpl {
 }
 
 pub fn listener(port: u16) -> (SimListenerImpl, SharedListener) {
-    let st = Arc::new(Mutex::new(ListenerState { backlog: VecDeque::new(), waker: None, closed: false, accepted: 0, accepted_conns: Vec::new() }));
+    let st = Arc::new(Mutex::new(ListenerState { backlog: VecDeque::new(), waker: None, closed: false, accepted: 0, accepted_conns: Vec::new(), fail_next: 0, errs_in_row: 0, accept_errors: 0 }));
     (SimListenerImpl { st: st.clone(), addr: SocketAddr::from(([10, 0, 0, 1], port)) }, st)
 }
 
@@ -252,6 +257,24 @@ pub fn connect(l: &SharedListener, server_half: SimStream, peer: SocketAddr) -> 
 impl pavex::server::sim::SimListener for SimListenerImpl {
     fn poll_accept(&self, cx: &mut Context<'_>) -> Poll<io::Result<(Box<dyn pavex::server::sim::SimIo>, SocketAddr)>> {
         let mut g = self.st.lock().unwrap();
+        if g.fail_next > 0 && !g.backlog.is_empty() {
+            g.fail_next -= 1;
+            g.accept_errors += 1;
+            g.errs_in_row += 1;
+            if g.accept_errors == 1 || g.fail_next == 0 {
+                sched::count(if g.fail_next == 0 { "fault_accept_emfile_window_exhausted" } else { "fault_accept_emfile_fired" }, 1);
+            }
+            // tokio's listener takes part in cooperative budgeting: a task that keeps getting results
+            // out of it is made to yield after 128 of them. The simulated threads run unconstrained,
+            // so the yield is reproduced here.
+            if g.errs_in_row % 128 == 0 {
+                drop(g);
+                cx.waker().wake_by_ref();
+                return Poll::Pending;
+            }
+            return Poll::Ready(Err(io::Error::from_raw_os_error(libc::EMFILE)));
+        }
+        g.errs_in_row = 0;
         match g.backlog.pop_front() {
             Some((s, a)) => {
                 g.accepted += 1;
